@@ -126,7 +126,9 @@ func (self *Interpreter) listLiteral(node ast.AnalyzedListLiteralExpression) (*v
 		if i != nil {
 			return nil, i
 		}
-		values = append(values, val)
+		// the element gets its own cell (the operand may be the cell of a variable: scalars are copied)
+		elem := *val
+		values = append(values, &elem)
 	}
 
 	return value.NewValueList(values), nil
@@ -151,7 +153,9 @@ func (self *Interpreter) objectLiteral(node ast.AnalyzedObjectLiteralExpression)
 		if i != nil {
 			return nil, i
 		}
-		fields[field.Key.Ident()] = fieldValue
+		// the field gets its own cell (the operand may be the cell of a variable: scalars are copied)
+		fieldCell := *fieldValue
+		fields[field.Key.Ident()] = &fieldCell
 	}
 	return value.NewValueObject(fields), nil
 }
